@@ -50,6 +50,10 @@ R15i a state is final for its invocation only: the command visitors (visit_UodCo
      get_runlog() raise for the rest of the run.
 Decides these clauses; does not decide producibility for every runtime state order beyond R15f (the raise sites in
 _get_record_runlog_items depend on runtime data), nor monotonicity of the engine clock itself.
+R15j Cancelled only for what has not concluded: the part of _cancel_command for a request with no registered command instance also sees
+     requests whose command completed (or failed) and was finalized *earlier in the same tick* - they stay in the executing list until
+     the commit at the end of the tick. Recording Cancelled for them puts a second conclusive state behind Completed: every
+     mark_cancelled of that part is dominated by the false outcome of the conclusive-state predicate on the request's instance id.
 """
 from __future__ import annotations
 
@@ -916,6 +920,41 @@ def run(ctx) -> None:
                      f"and in the next tick {k.short} finalizes the cancelled command and then reaches `{m2.text()[:50]}` - Cancelled followed "
                      "by a second conclusive state, after which get_runlog() raises for the rest of the run", pth)
     _r15i(ctx, prog, cancel)
+    _r15j(ctx, prog)
+
+
+def _r15j(ctx, prog):
+    from ..cmdgate import retire_branch_analysis, is_conclusive_predicate
+    ctx.rule("R15j", "a request that has concluded is not recorded Cancelled by the cancel pass")
+    f, g, marks, dones, skips = retire_branch_analysis(prog, ctx.res)
+    ctx.analysed(f)
+    if not marks:
+        ctx.ok("R15j", "_cancel_command: the no-instance part records no state", trivial=True)
+        return
+    rpar = f.node.args.args[1].arg
+    inst = "_cancel_command: Cancelled for a request without a command instance only if its invocation has not concluded"
+    bad = None
+    for m in marks:
+        okm = False
+        for e, pol in g.conditions_at(m):
+            for c in ast.walk(e):
+                if isinstance(c, ast.Call) and any(isinstance(a, ast.Attribute) and a.attr == "instance_id" and norm(a.value) == rpar for a in c.args) \
+                        and any(is_conclusive_predicate(t) for t in ctx.res.resolve_call(c, f, cha=False)):
+                    # the predicate is false here: it is a conjunct of a condition that is false as a whole only if ... keep it simple:
+                    # accept `not pred` true, or a false condition in which pred is a conjunct together with conditions that are known true
+                    txt = norm(e)
+                    if (not pol) or txt.startswith("not "):
+                        okm = True
+        if not okm and bad is None:
+            bad = m
+    if bad is None:
+        ctx.ok("R15j", inst)
+    else:
+        ctx.fail("R15j", f, bad.ast, inst, "a request whose uod command completed and was finalized earlier in this tick is still in the executing list "
+                 "(it is committed at the end of the tick) and has no instance: the cancel pass of Stop/Restart takes it for 'not started' "
+                 "and records Cancelled behind Completed - method `Mark: A / Shot / Mark: B` (Shot completes in its first execution), user "
+                 "Stop in the tick gap before Shot executes: states created, started, uodcommandset, completed, cancelled; get_runlog() raises "
+                 "'Error generating runlog' and the run-stopped message cannot be built")
 
 
 def _r15i(ctx, prog, cancel):
